@@ -33,7 +33,7 @@ CHECKS = {
  "C20": dict(engine=E1, category="model_checking", design="DESIGN.md#C20",
    technique="bounded symbolic execution of one emulator step (real decoder, real bus, real execInst; go/ssa -> SMT bit-vectors) from a fully symbolic machine state, compared by z3 with reference ISA semantics written in the harness; counterexamples replayed natively",
    text="(*riscv64.CPU).StepRun and (*riscv32.CPU).StepRun, with the real riscv.DecodeEx and device.Bus, run symbolically for one step from an arbitrary machine state: all 32 integer registers, PC, two FP register bit patterns, the loaded memory word and the instruction word (constrained to one mnemonic's spec pattern, register and immediate bits free) are symbolic. For each of the 63 RV32I/RV64I/M mnemonics, on every path where the emulator reports success, the integer registers as subsequently read, the PC, the load address/size, the memory write (address, size, value) and the FP registers equal the reference semantics written from the RISC-V unprivileged specification. One query per assertion and path covers all 2^(32*64+...) states.",
-   note="Trusted: the reference semantics and instruction patterns in the harness (from the spec listing, independent of Wa's table), go/ssa, the executor (validated per run by native replay of path models), z3 5.1.0. riscv.AsmSyntax/AsString (error formatting) are opaque stubs. MULH/MULHSU/MULHU (reported unsupported by the emulator), CSR/privileged/atomic/FP instructions, devices other than RAM and multi-step behaviour are outside. LoongArch emulator: see DESIGN.md#C20."),
+   note="Trusted: the reference semantics and instruction patterns in the harness (from the spec listing, independent of Wa's table), go/ssa, the executor (validated per run by native replay of path models), z3 5.1.0. riscv.AsmSyntax/AsString (error formatting) are opaque stubs. MULH/MULHSU/MULHU (reported unsupported by the emulator), CSR/privileged/atomic/FP instructions, devices other than RAM and multi-step behaviour are outside. The LoongArch64 emulator (wemu/loong64) gets the same treatment for the 27 instructions it implements (add.w/d, sub.w/d, and, or, slt, slli/srli/srai.w, addi.w, ori, lu12i.w, pcaddu12i, ld.bu/d, st.b/w/d, beq, bne, blt, b, bl, fadd.s, fmul.d, fsub.d; opcode patterns from the encoder table that C17 validates against x/arch, semantics from the LoongArch reference manual), plus 8 unimplemented ones that must stay unsupported."),
  # ---CHECKS-END---
 }
 NA = {
